@@ -39,7 +39,7 @@ def Ctx.subscriptionReply (c : Ctx) (t : Topic) (a : Actor) (mode : String) (pri
   | some res =>
     let hasJoined := match res.modeChanged with
       | some (w, g) => isJoiner (w &&& g)
-      | none => true
+      | none => (match t.pud? a.uid with | some p => isJoiner (eff p) | none => true)   -- nothing changed: as before
     -- attach the session
     let (c, t) :=
       if hasJoined then
